@@ -97,8 +97,8 @@ Fs::Ufs::UFSStoreState::closeCompleted()
     // that outgrew the cache_dir max-size). Stay alive until we are done here.
     const StoreIOState::Pointer self(this);
 
-    if (theFile->error()) {
-        debugs(79,3, "theFile->error() ret " << theFile->error());
+    if (theFile->error() || flags.abandoned) {
+        debugs(79,3, "theFile->error() ret " << theFile->error() << " abandoned " << flags.abandoned);
         doCloseCallback(DISK_ERROR);
     } else {
         doCloseCallback(DISK_OK);
@@ -177,6 +177,7 @@ Fs::Ufs::UFSStoreState::write(char const *buf, size_t size, off_t aOffset, FREE 
         debugs(79, 2, "accepted unknown-size entry grew too big: " <<
                (offset_ + size) << " > " << dir.maxObjectSize());
         free_func((void*)buf);
+        flags.abandoned = true; // even if the (possibly delayed) close succeeds
         tryClosing();
         return false;
     }
@@ -346,6 +347,7 @@ Fs::Ufs::UFSStoreState::UFSStoreState(SwapDir * SD, StoreEntry * anEntry, STIOCB
     // our flags
     flags.write_draining = false;
     flags.try_closing = false;
+    flags.abandoned = false;
 }
 
 Fs::Ufs::UFSStoreState::~UFSStoreState()
